@@ -53,6 +53,40 @@ type instr struct {
 	info     *types.Info // type information of the package being instrumented (nil: fall back to names)
 	loopID   int
 	wrapped  int // calls nested inside an expression that got a yield after them
+	uses     map[*ast.Ident]types.Object
+	clocked  int // references to package time's clock (Now, Since, Until, Sleep, After, AfterFunc) routed to the simulator
+}
+
+// Virtual clock. time.Now / Since / Until / Sleep / After / AfterFunc in flamego's sources become
+// simTime.Now / ... (a package-level value of the instrumented copy whose methods ask the
+// simulator when one is installed), so that any timer the framework arms reads simulated time
+// and its callback runs as a task the scheduler places. time.NewTimer, Ticker and
+// context.WithTimeout are left on the wall clock (said in DESIGN.md).
+var clockFuncs = map[string]bool{"Now": true, "Since": true, "Until": true, "Sleep": true, "After": true, "AfterFunc": true}
+
+func (in *instr) routeClock(f *ast.File) (localName string) {
+	if in.uses == nil {
+		return ""
+	}
+	ast.Inspect(f, func(n ast.Node) bool {
+		sel, ok := n.(*ast.SelectorExpr)
+		if !ok || !clockFuncs[sel.Sel.Name] {
+			return true
+		}
+		id, ok := sel.X.(*ast.Ident)
+		if !ok {
+			return true
+		}
+		pn, ok := in.uses[id].(*types.PkgName)
+		if !ok || pn.Imported().Path() != "time" {
+			return true
+		}
+		localName = id.Name
+		sel.X = ast.NewIdent("simTime")
+		in.clocked++
+		return true
+	})
+	return localName
 }
 
 // Known map types from other packages, by their unqualified name.
@@ -409,6 +443,54 @@ func (in *instr) wrapStmt(s ast.Stmt) {
 	}
 }
 
+const simTimeSrc = `
+
+import "time"
+
+// SimClockFuncs is the virtual clock of the simulator (instrumented builds only).
+type SimClockFuncs struct {
+	Now       func() time.Time
+	Sleep     func(time.Duration)
+	After     func(time.Duration) <-chan time.Time
+	AfterFunc func(time.Duration, func()) *time.Timer
+}
+
+// SimClock is installed by flamego.SetSimClock.
+var SimClock SimClockFuncs
+
+type simTimeT struct{}
+
+var simTime simTimeT
+
+func (simTimeT) Now() time.Time {
+	if SimClock.Now != nil {
+		return SimClock.Now()
+	}
+	return time.Now()
+}
+func (s simTimeT) Since(t time.Time) time.Duration { return s.Now().Sub(t) }
+func (s simTimeT) Until(t time.Time) time.Duration { return t.Sub(s.Now()) }
+func (simTimeT) Sleep(d time.Duration) {
+	if SimClock.Sleep != nil {
+		SimClock.Sleep(d)
+		return
+	}
+	time.Sleep(d)
+}
+func (simTimeT) After(d time.Duration) <-chan time.Time {
+	if SimClock.After != nil {
+		return SimClock.After(d)
+	}
+	return time.After(d)
+}
+func (simTimeT) AfterFunc(d time.Duration, f func()) *time.Timer {
+	if SimClock.AfterFunc != nil {
+		return SimClock.AfterFunc(d, f)
+	}
+	return time.AfterFunc(d, f)
+}
+` + "\n"
+
 func main() {
 	if len(os.Args) != 3 {
 		fmt.Fprintln(os.Stderr, "usage: autoyield <repo> <outdir>")
@@ -459,12 +541,14 @@ func main() {
 		}
 		// Type information tells map ranges from slice ranges exactly. A package that does not
 		// type-check (it would not compile either) falls back to the name heuristic.
-		info := &types.Info{Types: map[ast.Expr]types.TypeAndValue{}}
+		info := &types.Info{Types: map[ast.Expr]types.TypeAndValue{}, Uses: map[*ast.Ident]types.Object{}}
 		conf := types.Config{Importer: importer.ForCompiler(fset, "source", nil), Error: func(error) {}}
 		if _, err := conf.Check("autoyield/"+p, fset, files, info); err == nil {
 			in.info = info
+			in.uses = info.Uses
 		} else {
 			in.info = nil
+			in.uses = nil
 			fmt.Fprintf(os.Stderr, "autoyield: %s does not type-check (%v): map ranges are left alone by name\n", p, err)
 		}
 		sortedBefore := in.sorted
@@ -476,6 +560,12 @@ func main() {
 			}
 			src := filepath.Join(dir, n)
 			before := in.next
+			clockedBefore := in.clocked
+			if tn := in.routeClock(f); tn != "" {
+				// keep the import of package time used whatever else the file does with it
+				f.Decls = append(f.Decls, &ast.GenDecl{Tok: token.VAR, Specs: []ast.Spec{&ast.ValueSpec{Names: []*ast.Ident{ast.NewIdent("_")},
+					Values: []ast.Expr{&ast.SelectorExpr{X: ast.NewIdent(tn), Sel: ast.NewIdent("Nanosecond")}}}}})
+			}
 			for _, d := range f.Decls {
 				fd, ok := d.(*ast.FuncDecl)
 				if !ok || fd.Body == nil || fd.Name.Name == "init" || fd.Name.Name == "simYield" {
@@ -486,7 +576,7 @@ func main() {
 				}
 				in.block(fd.Body)
 			}
-			if in.next == before {
+			if in.next == before && in.clocked == clockedBefore {
 				continue
 			}
 			f.Comments = nil // positions are stale after insertion; doc comments are not needed to compile
@@ -512,6 +602,13 @@ func main() {
 			overlay[src] = dst
 			sites += in.next - before
 		}
+		{
+			pkgName := files[0].Name.Name
+			helper := filepath.Join(out, p, "simtime_auto.go")
+			os.MkdirAll(filepath.Dir(helper), 0o755)
+			os.WriteFile(helper, []byte("package "+pkgName+simTimeSrc), 0o644)
+			overlay[filepath.Join(dir, "simtime_auto.go")] = helper
+		}
 		if in.wrapped > wrappedBefore {
 			pkgName := files[0].Name.Name
 			helper := filepath.Join(out, p, "simexpr_auto.go")
@@ -533,7 +630,7 @@ func main() {
 	os.WriteFile(injHook, []byte("package inject\n\n// SimYield is installed by flamego.SetSimYield in instrumented builds.\nvar SimYield func(site int)\n\nfunc simYield(site int) {\n\tif SimYield != nil {\n\t\tSimYield(site)\n\t}\n}\n"), 0o644)
 	overlay[filepath.Join(repo, "inject", "simhook_auto.go")] = injHook
 	rootHook := filepath.Join(out, "simhook_on.go")
-	os.WriteFile(rootHook, []byte("//go:build verif\n\npackage flamego\n\nimport (\n\t\"github.com/flamego/flamego/inject\"\n\t\"github.com/flamego/flamego/internal/route\"\n)\n\nvar simYieldFn func(site int)\n\nfunc SetSimYield(f func(site int)) {\n\tsimYieldFn = f\n\troute.SimYield = f\n\tinject.SimYield = f\n}\n\nfunc simYield(site int) {\n\tif simYieldFn != nil {\n\t\tsimYieldFn(site)\n\t}\n}\n"), 0o644)
+	os.WriteFile(rootHook, []byte("//go:build verif\n\npackage flamego\n\nimport (\n\t\"github.com/flamego/flamego/inject\"\n\t\"github.com/flamego/flamego/internal/route\"\n)\n\nvar simYieldFn func(site int)\n\nfunc SetSimYield(f func(site int)) {\n\tsimYieldFn = f\n\troute.SimYield = f\n\tinject.SimYield = f\n}\n\nfunc simYield(site int) {\n\tif simYieldFn != nil {\n\t\tsimYieldFn(site)\n\t}\n}\n\n// SetSimClock installs the simulator's virtual clock in every instrumented package.\nfunc SetSimClock(c SimClockFuncs) {\n\tSimClock = c\n\troute.SimClock = route.SimClockFuncs(c)\n\tinject.SimClock = inject.SimClockFuncs(c)\n}\n"), 0o644)
 	overlay[filepath.Join(repo, "simhook_on.go")] = rootHook
 	if in.sorted > 0 {
 		// simSortedKeys is generic over comparable keys, and interface-typed keys (reflect.Type in
@@ -553,5 +650,5 @@ func main() {
 	}
 	b, _ := json.MarshalIndent(map[string]any{"Replace": overlay}, "", " ")
 	os.WriteFile(filepath.Join(out, "overlay.json"), b, 0o644)
-	fmt.Printf("autoyield: %d statement yield sites and %d expression yields (after nested calls) in %d files (%d map-range loops iterate in sorted order, %d left alone)\n", sites, in.wrapped, len(overlay)-2, in.sorted, in.skipped)
+	fmt.Printf("autoyield: %d statement yield sites and %d expression yields (after nested calls) in %d files (%d map-range loops iterate in sorted order, %d left alone); %d clock references routed to the virtual clock\n", sites, in.wrapped, len(overlay)-2, in.sorted, in.skipped, in.clocked)
 }
